@@ -10,6 +10,7 @@ package main
 
 import (
 	"encoding/binary"
+	"net"
 	"fmt"
 	"math/rand"
 	"strings"
@@ -58,7 +59,10 @@ func runMix(id string, parts []string) string {
 		pool[i] = qd{raw, []uint16{1, 28, 16, 15}[rng.Intn(4)], []uint16{1, 1, 3}[rng.Intn(3)]}
 	}
 	listeners := []string{"udp", "udp", "tcp", "gnet", "http-post", "fasthttp-get"}
-	var total, okc, wrong, noresp atomic.Int64
+	if ls := f["ls"]; ls != "" {
+		listeners = strings.Split(ls, "+")
+	}
+	var total, okc, wrong, noresp, sfail atomic.Int64
 	var firstMu sync.Mutex
 	first := "-"
 	var wg sync.WaitGroup
@@ -67,13 +71,50 @@ func runMix(id string, parts []string) string {
 		crng := rand.New(rand.NewSource(seed*1000 + int64(c)))
 		go func() {
 			defer wg.Done()
+			// one long-lived UDP socket per client (fast path); a response with a foreign ID (late reply to an
+			// earlier, timed-out query of this socket) is skipped, never taken for the current query's
+			var uc *net.UDPConn
+			defer func() {
+				if uc != nil {
+					uc.Close()
+				}
+			}()
+			udpQuery := func(wire []byte) ([][]byte, string) {
+				if uc == nil {
+					c, err := net.DialUDP("udp", nil, &net.UDPAddr{IP: net.IPv4(127, 0, 0, 1), Port: env.Ports["udp"]})
+					if err != nil {
+						return nil, "dial-error"
+					}
+					uc = c
+				}
+				uc.Write(wire)
+				buf := make([]byte, 65536)
+				uc.SetReadDeadline(time.Now().Add(8 * time.Second))
+				for {
+					n, err := uc.Read(buf)
+					if err != nil {
+						uc.Close()
+						uc = nil
+						return nil, "no-response"
+					}
+					if n >= 2 && buf[0] == wire[0] && buf[1] == wire[1] {
+						return [][]byte{append([]byte(nil), buf[:n]...)}, "ok"
+					}
+				}
+			}
 			for k := 0; k < per; k++ {
 				q := pool[crng.Intn(len(pool))]
 				l := listeners[crng.Intn(len(listeners))]
 				idn := uint16(crng.Intn(65536))
 				wire := hx.BuildQuery(idn, q.name, q.typ, q.cls, true)
 				total.Add(1)
-				resps, st := env.Query(l, wire, "-", 8*time.Second, 0)
+				var resps [][]byte
+				var st string
+				if l == "udp" {
+					resps, st = udpQuery(wire)
+				} else {
+					resps, st = env.Query(l, wire, "-", 8*time.Second, 0)
+				}
 				if st != "ok" || len(resps) == 0 {
 					noresp.Add(1)
 					continue
@@ -81,6 +122,8 @@ func runMix(id string, parts []string) string {
 				bad := checkKeyed(wire, resps[0], q.typ, q.cls)
 				if bad == "" {
 					okc.Add(1)
+				} else if bad == "servfail" {
+					sfail.Add(1)
 				} else {
 					wrong.Add(1)
 					firstMu.Lock()
@@ -93,8 +136,8 @@ func runMix(id string, parts []string) string {
 		}()
 	}
 	wg.Wait()
-	return fmt.Sprintf("total=%d ok=%d wrong=%d noresp=%d upstream=%d first=%s", total.Load(), okc.Load(), wrong.Load(),
-		noresp.Load(), env.KeyedCount.Load(), first)
+	return fmt.Sprintf("total=%d ok=%d wrong=%d noresp=%d servfail=%d upstream=%d first=%s", total.Load(), okc.Load(), wrong.Load(),
+		noresp.Load(), sfail.Load(), env.KeyedCount.Load(), first)
 }
 
 // checkKeyed returns "" when resp is the keyed answer for the question asked in wire.
@@ -105,6 +148,22 @@ func checkKeyed(wire, resp []byte, typ, cls uint16) string {
 	}
 	if m.Id != binary.BigEndian.Uint16(wire) {
 		return "id"
+	}
+	if hx.KeyedClass(hx.QuestionKey(wire)) == "fail" {
+		// every upstream exchange for this question fails: SERVFAIL with the client's own question, no records
+		if m.Rcode != dns.RcodeServerFailure || len(m.Answer) != 0 {
+			return fmt.Sprintf("failname-rcode%d-an%d", m.Rcode, len(m.Answer))
+		}
+		if len(m.Question) != 1 || m.Question[0].Qtype != typ || m.Question[0].Qclass != cls {
+			return "failname-question"
+		}
+		return ""
+	}
+	if m.Rcode == dns.RcodeServerFailure && len(m.Answer) == 0 && len(m.Question) == 1 &&
+		m.Question[0].Qtype == typ && m.Question[0].Qclass == cls {
+		// collateral failure (e.g. the pipelined connection was closed by the server for another question):
+		// an honest SERVFAIL for the client's own question is not a mixed-up answer; counted separately
+		return "servfail"
 	}
 	if m.Rcode != dns.RcodeSuccess {
 		return fmt.Sprintf("rcode%d", m.Rcode)
